@@ -1,0 +1,80 @@
+//go:build verif
+// +build verif
+
+// Hooks for the verification harness (build tag "verif"). Add-only: nothing in
+// this file is compiled into a normal build.
+
+package ipp
+
+import (
+	"fmt"
+	"strings"
+
+	"github.com/honeytrap/honeytrap/services/decoder"
+)
+
+func verifHex(b []byte) string {
+	if len(b) == 0 {
+		return "-"
+	}
+	return fmt.Sprintf("%x", b)
+}
+
+func verifGroup(g *attribGroup) string {
+	var vals []string
+	for _, v := range g.val {
+		switch t := v.(type) {
+		case *valInt:
+			var p []string
+			for _, x := range t.val {
+				p = append(p, fmt.Sprint(uint32(x)))
+			}
+			vals = append(vals, fmt.Sprintf("i%d:%s=%s", t.tag, verifHex([]byte(t.name)), strings.Join(p, ",")))
+		case *valStr:
+			var p []string
+			for _, x := range t.val {
+				p = append(p, verifHex([]byte(x)))
+			}
+			vals = append(vals, fmt.Sprintf("s%d:%s=%s", t.tag, verifHex([]byte(t.name)), strings.Join(p, ",")))
+		case *valBool:
+			var p []string
+			for _, x := range t.val {
+				if x {
+					p = append(p, "1")
+				} else {
+					p = append(p, "0")
+				}
+			}
+			vals = append(vals, fmt.Sprintf("b%d:%s=%s", t.tag, verifHex([]byte(t.name)), strings.Join(p, ",")))
+		case *valRangeInt:
+			vals = append(vals, fmt.Sprintf("r%d:%s=%d-%d", t.tag, verifHex([]byte(t.name)), uint32(t.low), uint32(t.high)))
+		}
+	}
+	return fmt.Sprintf("g%d[%s]", g.tag, strings.Join(vals, ";"))
+}
+
+// VerifDecode runs the real ippMsg.decode and renders what it produced:
+// "v<maj>.<min> op=<op> rid=<id> g<tag>[<attr>;...] ... data=<hex>", or "error".
+func VerifDecode(raw []byte) string {
+	m := &ippMsg{}
+	if err := m.decode(raw); err != nil {
+		return "error"
+	}
+	parts := []string{fmt.Sprintf("v%d.%d", m.versionMajor, m.versionMinor), fmt.Sprintf("op=%d", uint16(m.statusCode)), fmt.Sprintf("rid=%d", uint32(m.requestID))}
+	for _, g := range m.attributes {
+		if g.tag == endAttribTag {
+			continue
+		}
+		parts = append(parts, verifGroup(g))
+	}
+	parts = append(parts, "data="+verifHex(m.data))
+	return strings.Join(parts, " ")
+}
+
+// VerifModelGroup is the encoded printer description a Get-Printer-Attributes
+// reply carries (it depends on how many services were constructed).
+func VerifModelGroup() []byte {
+	enc := decoder.NewEncoder()
+	model.encode(enc)
+	return enc.Bytes()
+}
